@@ -12,6 +12,7 @@ Ops (one per line; output = one line of `k=v` tokens):
 * `select <req> <now> <rnum>/<rden> <c1,c2,…>`                             → choice line
 * `sabandon <req>`                                                        → `rel=0 …`
 * `succ <req> <duration> <c1,c2,…>` / `fail <req> <0|1> <now>` / `aband <req>` → choice line | `panic`
+* `isfaster <failuresA> <failuresB> <a1,a2,…|-> <b1,…|->`                   → `isf=<rat> isr=<rat>` (IsFaster both ways)
 * `dump <key>`                                                            → `stats=… sp=…`
 -/
 namespace BbRe.Drivers.ISC
@@ -31,7 +32,14 @@ structure St where
   env : Env := { calculator := .smallest, historySize := 1, failureCacheDuration := 0 }
   defaultTO : Int := 0
   maxTO : Int := 0
+  /-- the in-memory message of every key (equal to `persist` while no handle is out) -/
   store : List (Nat × Stats) := []
+  /-- what the fake Initial Size Class Cache holds: the harness' store serialises the message
+  when the last handle of a key is released and one of the releases since loading was dirty,
+  drops the in-memory copy, and deserialises on the next Get (as BlobAccessMutableProtoStore does) -/
+  persist : List (Nat × Stats) := []
+  live : List (Nat × Nat) := []
+  dirty : List (Nat × Bool) := []
   reqs : List (Nat × Req) := []
   gets : Nat := 0
 
@@ -116,7 +124,21 @@ def statsOf (st : St) (key : Nat) : Stats := (lookupNat st.store key).getD {}
 def commit (st : St) (rid : Nat) (rq : Req) (o : StepOut) : St × String :=
   let rels := rq.releases ++ o.release.toList
   let rq' : Req := { rq with pendingSelect := false, cur := o.next, releases := rels, mutated := rq.mutated || o.mutated }
-  ({ st with store := setNat st.store rq.key o.stats, reqs := setNat st.reqs rid rq' }, showChoice o rels)
+  let st1 : St := { st with reqs := setNat st.reqs rid rq' }
+  match o.release with
+  | none => ({ st1 with store := setNat st.store rq.key o.stats }, showChoice o rels)
+  | some d =>
+    let users := (lookupNat st.live rq.key).getD 0 - 1
+    let anyDirty := (lookupNat st.dirty rq.key).getD false || d
+    if users = 0 then
+      -- last handle: write back if dirty, then drop the in-memory copy
+      let final := if anyDirty then o.stats else (lookupNat st.persist rq.key).getD {}
+      ({ st1 with store := setNat st.store rq.key final, persist := setNat st.persist rq.key final,
+                  live := setNat st.live rq.key 0, dirty := setNat st.dirty rq.key false },
+       showChoice { o with stats := final } rels)
+    else
+      ({ st1 with store := setNat st.store rq.key o.stats, live := setNat st.live rq.key users,
+                  dirty := setNat st.dirty rq.key anyDirty }, showChoice o rels)
 
 def step (st : St) (ws : List String) : St × String :=
   match ws with
@@ -135,7 +157,10 @@ def step (st : St) (ws : List String) : St × String :=
   | "stats" :: key :: lsf :: entries =>
     match key.toNat?, (if lsf = "-" then some none else lsf.toInt?.map some), entries.mapM parseClassEntry with
     | some key, some lsf, some cls =>
-      ({ st with store := setNat st.store key { classes := cls, lastFailure := lsf } }, "ok")
+      if (lookupNat st.live key).getD 0 ≠ 0 then (st, "bad-op")
+      else
+        ({ st with store := setNat st.store key { classes := cls, lastFailure := lsf },
+                   persist := setNat st.persist key { classes := cls, lastFailure := lsf } }, "ok")
     | _, _, _ => (st, "bad-op")
   | "analyze" :: rid :: key :: rest =>
     let parsed : Option (ActionTimeout × Bool) := match rest with
@@ -156,7 +181,7 @@ def step (st : St) (ws : List String) : St × String :=
              s!"sel to={t} gets={st.gets}")
           else if !getOk then ({ st with gets := st.gets + 1 }, s!"err what=get gets={st.gets + 1}")
           else
-            ({ st with gets := st.gets + 1,
+            ({ st with gets := st.gets + 1, live := setNat st.live key ((lookupNat st.live key).getD 0 + 1),
                        reqs := setNat st.reqs rid { key, origTO := t, pendingSelect := true, cur := none, releases := [], mutated := false } },
              s!"sel to={t} gets={st.gets + 1}")
     | _, _, _ => (st, "bad-op")
@@ -230,6 +255,12 @@ def step (st : St) (ws : List String) : St × String :=
         | none => (st, "bad-op")
       | none => (st, "bad-op")
     | none => (st, "bad-op")
+  | ["isfaster", fa, fb, a, b] =>
+    let parseInts (x : String) : Option (List Int) := if x = "-" then some [] else (x.splitOn ",").mapM String.toInt?
+    match fa.toNat?, fb.toNat?, parseInts a, parseInts b with
+    | some fa, some fb, some a, some b =>
+      (st, s!"isf={showRat (isFaster (newOutcomes a fa) (newOutcomes b fb))} isr={showRat (isFaster (newOutcomes b fb) (newOutcomes a fa))}")
+    | _, _, _, _ => (st, "bad-op")
   | ["dump", key] =>
     match key.toNat? with
     | some key => (st, showStats (statsOf st key))
